@@ -450,14 +450,12 @@ class from_kafka(Source):
 
     @gen.coroutine
     def poll_kafka(self):
-        while True:
+        while not self.stopped:
             val = self.do_poll()
             if val:
                 yield self._emit(val)
             else:
                 yield gen.sleep(self.poll_interval)
-            if self.stopped:
-                break
         self._close_consumer()
 
     def start(self):
